@@ -167,8 +167,14 @@ pub fn generate(tier: &str, rng: &mut Prng) -> Vec<Case> {
         let g0: Vec<i128> = (0..n).map(|_| if i % 7 == 3 { 0 } else { rng.range(-3, 3) as i128 }).collect();
         let kf = negacyc(&k, &fl);
         let kg = negacyc(&k, &gl);
-        let cf: Vec<i128> = f0.iter().zip(kf.iter()).map(|(a, b)| a + b).collect();
-        let cg: Vec<i128> = g0.iter().zip(kg.iter()).map(|(a, b)| a + b).collect();
+        let mut cf: Vec<i128> = f0.iter().zip(kf.iter()).map(|(a, b)| a + b).collect();
+        let mut cg: Vec<i128> = g0.iter().zip(kg.iter()).map(|(a, b)| a + b).collect();
+        // exactly one component is the zero polynomial while the other still has to be reduced
+        if i % 11 == 5 {
+            cf.iter_mut().for_each(|x| *x = 0);
+        } else if i % 11 == 6 {
+            cg.iter_mut().for_each(|x| *x = 0);
+        }
         if cf.iter().chain(cg.iter()).any(|x| x.abs() >= (1 << 24)) {
             continue;
         }
